@@ -47,13 +47,13 @@ use datafusion::common::{DFSchema, DataFusionError, Result as DFResult, ScalarVa
 use datafusion::execution::{TaskContext, TaskContextProvider};
 use datafusion::logical_expr::{AggregateUDF, Expr, Operator, ScalarUDF, TableProviderFilterPushDown, TableType, WindowUDF, col, lit};
 use datafusion::physical_expr::PhysicalExpr;
-use datafusion::physical_plan::filter::FilterExec;
+use datafusion::physical_plan::filter::{FilterExec, FilterExecBuilder};
 use datafusion::physical_plan::{ExecutionPlan, ExecutionPlanProperties, Partitioning, PlanProperties};
 use datafusion::prelude::SessionContext;
 use datafusion_ffi::execution_plan::{FFI_ExecutionPlan, ForeignExecutionPlan};
 use datafusion_ffi::table_provider::{FFI_TableProvider, ForeignTableProvider};
 use datafusion_ffi::udtf::{FFI_TableFunction, ForeignTableFunction};
-use futures::StreamExt;
+use futures::{FutureExt, StreamExt};
 use proptest::prelude::*;
 use serde::{Deserialize, Serialize};
 use std::sync::{Arc, Mutex};
@@ -108,14 +108,14 @@ pub struct Case {
 pub const SIMPLIFY_ONLY: &[&str] = &["coalesce", "nvl", "nvl2", "ifnull", "now", "current_timestamp", "current_date", "today", "current_time"];
 
 fn case_strategy(tier: Tier) -> BoxedStrategy<Case> {
-    let mut cfg = refsql::gen::GenConfig::standard(3, tier.pick(8, 24), tier.pick(2, 3));
+    let mut cfg = refsql::r#gen::GenConfig::standard(3, tier.pick(8, 24), tier.pick(2, 3));
     cfg.topk_ties = false;
     cfg.unguarded_div_pct = 0;
     cfg.recursive_ctes = false;
     let filter = (0u8..6, 0u8..13, -3i8..6, -3i8..6).prop_map(|(col, kind, x, y)| FilterSpec { col, kind, x, y });
     let scan = (any::<u16>(), prop::option::weighted(0.7, prop::collection::vec(0u8..6, 0..5)), prop::collection::vec(filter, 0..4), prop::option::weighted(0.5, 0u8..12)).prop_map(|(table, projection, filters, limit)| ScanProbe { table, projection, filters, limit });
     let tf = (any::<bool>(), prop::collection::vec(-4i8..12, 1..=3), 0u8..3).prop_map(|(generate_series, args, flavour)| TableFnCall { generate_series, args, flavour });
-    (refsql::gen::case_strategy(&cfg), 1u8..=4, 1u8..=3, prop::option::weighted(0.5, 1u8..6), prop::bool::weighted(0.7), prop::bool::weighted(0.7), scan, tf)
+    (refsql::r#gen::case_strategy(&cfg), 1u8..=4, 1u8..=3, prop::option::weighted(0.5, 1u8..6), prop::bool::weighted(0.7), prop::bool::weighted(0.7), scan, tf)
         .prop_map(|(sc, target_partitions, mem_partitions, batch_rows, foreign_fns, pushdown, scan, tf)| Case { tables: sc.tables, query: sc.query, target_partitions, mem_partitions, batch_rows, foreign_fns, pushdown, scan, tf })
         .boxed()
 }
@@ -176,11 +176,7 @@ impl TableProvider for Recorder {
         }
         let pred = pred.unwrap_or_else(|| lit(true));
         let phys: Arc<dyn PhysicalExpr> = state.create_physical_expr(pred, &df_schema)?;
-        let filter = FilterExec::try_new(phys, full)?;
-        let filter = match projection {
-            Some(p) => filter.with_projection(Some(p.to_vec()))?,
-            None => filter,
-        };
+        let filter: FilterExec = FilterExecBuilder::new(phys, full).apply_projection(projection.map(|p| p.to_vec()))?.build()?;
         Ok(Arc::new(filter))
     }
 }
@@ -328,7 +324,7 @@ fn recorder(t: &Table, v: &Variant) -> Result<(Arc<Recorder>, Arc<Mutex<Vec<Scan
     Ok((Arc::new(Recorder { inner, calls: Arc::clone(&calls) }), calls))
 }
 
-fn build(case: &Case, v: &Variant) -> Result<Ctxs, String> {
+fn build(case: &Case, v: &Variant, keep_native_nonnull_defaults: bool) -> Result<Ctxs, String> {
     let native = Arc::new(vf_df::build_context(v, |b| b).map_err(|e| e.to_string())?);
     let foreign = Arc::new(vf_df::build_context(v, |b| b).map_err(|e| e.to_string())?);
     let tcp = Arc::clone(&foreign) as Arc<dyn TaskContextProvider>;
@@ -364,6 +360,10 @@ fn build(case: &Case, v: &Variant) -> Result<Ctxs, String> {
         af.sort_by(|a, b| a.name().cmp(b.name()));
         af.dedup_by(|a, b| a.name() == b.name());
         for f in af {
+            // diagnosis mode: aggregates whose value over no rows is not NULL (count) stay native
+            if keep_native_nonnull_defaults && f.default_value(&arrow::datatypes::DataType::Int64).map(|d| !d.is_null()).unwrap_or(false) {
+                continue;
+            }
             foreign.register_udaf(crate::c45b::foreign_udaf(&f)?.1);
         }
         let mut wf: Vec<Arc<WindowUDF>> = state.window_functions().values().cloned().collect();
@@ -425,7 +425,7 @@ impl Property for C45c {
         case_strategy(tier)
     }
     fn budget(&self, tier: Tier) -> Budget {
-        Budget::new(tier.pick(160, 16_000), tier.pick(8, 16)).min_nontrivial(tier.pick(50, 5_000)).discard_cap(0.6).case_timeout(180)
+        Budget::new(tier.pick(160, 12_000), tier.pick(8, 16)).min_nontrivial(tier.pick(50, 4_000)).discard_cap(0.6).case_timeout(180)
     }
     fn rule(&self) -> String {
         "refsql-generated tables t0..t2 (0-8 rows, thorough 0-24) and query (depth 2, thorough 3; joins, subqueries, set ops, grouping, windows, CTEs, limits without ties), 1-4 target partitions, 1-3 MemTable partitions, optional small batches, \
@@ -445,8 +445,28 @@ impl Property for C45c {
         ]
     }
     fn run(&self, case: &Case) -> CaseResult {
-        run_case(case)
+        run_cached(case)
     }
+    fn known_signature(&self, case: &Case) -> Option<String> {
+        match &run_cached(case).outcome {
+            Outcome::Violation(m) => m.strip_prefix("[sig=").and_then(|rest| rest.split(']').next()).map(|s| s.to_string()),
+            _ => None,
+        }
+    }
+}
+
+thread_local! {
+    static LAST: std::cell::RefCell<Option<(u64, CaseResult)>> = const { std::cell::RefCell::new(None) };
+}
+
+fn run_cached(case: &Case) -> CaseResult {
+    let fp = serde_json::to_vec(case).map(|b| fnv1a(&b)).unwrap_or(0);
+    if let Some(r) = LAST.with(|l| l.borrow().as_ref().filter(|(f, _)| *f == fp).map(|(_, r)| r.clone())) {
+        return r;
+    }
+    let r = run_case(case);
+    LAST.with(|l| *l.borrow_mut() = Some((fp, r.clone())));
+    r
 }
 
 fn run_case(case: &Case) -> CaseResult {
@@ -473,7 +493,7 @@ async fn run_async(case: &Case, v: &Variant) -> CaseResult {
             return CaseResult::violation(format!($($arg)*)).labels(labels.clone())
         };
     }
-    let ctxs = match build(case, v) {
+    let ctxs = match build(case, v, false) {
         Ok(c) => c,
         Err(e) if e.starts_with("VIOLATION-SETUP") => violation!("{e}"),
         Err(e) => return CaseResult::discard(format!("setup: {}", truncate(&e, 50))),
@@ -582,12 +602,17 @@ async fn run_async(case: &Case, v: &Variant) -> CaseResult {
         labels.push(format!("q:{f}"));
     }
     // native: logical → physical → rows
-    let native_plan = async {
+    let native_plan = match std::panic::AssertUnwindSafe(async {
         let state = ctxs.native.state();
         let logical = state.create_logical_plan(&sql).await?;
         state.create_physical_plan(&logical).await
-    }
-    .await;
+    })
+    .catch_unwind()
+    .await
+    {
+        Ok(r) => r,
+        Err(_) => return CaseResult::discard("native planner panicked (not an FFI matter)").labels(labels),
+    };
     let foreign_plan = async {
         let state = ctxs.foreign.state();
         let logical = state.create_logical_plan(&sql).await?;
@@ -601,14 +626,58 @@ async fn run_async(case: &Case, v: &Variant) -> CaseResult {
             let clean = matches!(e.find_root(), DataFusionError::NotImplemented(_) | DataFusionError::Plan(_));
             return if clean { CaseResult::discard(format!("engine rejects: {}", truncate(&e.to_string(), 40))).labels(labels) } else { CaseResult::pass().labels(labels).nontrivial(nontrivial) };
         }
+        (Ok(np), Err(fe)) if case.pushdown && fe.to_string().contains("Proto serialization error") => {
+            // known finding? the same case with filter pushdown disabled on the FFI provider must plan and agree
+            let mut c2 = case.clone();
+            c2.pushdown = false;
+            if let Ok(diag) = build(&c2, v, false) {
+                let again = async {
+                    let state = diag.foreign.state();
+                    let logical = state.create_logical_plan(&sql).await?;
+                    let plan = state.create_physical_plan(&logical).await?;
+                    execute_all(&plan, diag.foreign.task_ctx()).await
+                }
+                .await;
+                let native_rows = std::panic::AssertUnwindSafe(execute_all(&np, ctxs.native.task_ctx())).catch_unwind().await;
+                if let (Ok((_, c)), Ok(Ok((_, a)))) = (again, native_rows) {
+                    if same_rows(&rows_of(&a), &rows_of(&c)).is_none() {
+                        violation!(
+                            "[sig=ffi-provider-unserializable-filter] planning `{sql}` fails with a ForeignTableProvider that supports filter pushdown ({}) and works (same rows as native) without pushdown: ForeignTableProvider::supports_filters_pushdown turns a filter it cannot serialise into a planning error instead of answering Unsupported for it",
+                            truncate(&fe.to_string(), 300)
+                        );
+                    }
+                }
+            }
+            violation!("planning `{sql}`: native Ok, foreign Err {}", truncate(&fe.to_string(), 400))
+        }
         (a, b) => violation!("planning `{sql}`: native {:?} foreign {:?}", a.map(|_| "Ok").map_err(|e| truncate(&e.to_string(), 400)), b.map(|_| "Ok").map_err(|e| truncate(&e.to_string(), 400))),
     };
-    let native_rows = execute_all(&np, ctxs.native.task_ctx()).await;
+    let native_rows = match std::panic::AssertUnwindSafe(execute_all(&np, ctxs.native.task_ctx())).catch_unwind().await {
+        Ok(r) => r,
+        Err(_) => return CaseResult::discard("native execution panicked (not an FFI matter)").labels(labels),
+    };
     let foreign_rows = execute_all(&fp, ctxs.foreign.task_ctx()).await;
     let native_rows = match (native_rows, foreign_rows) {
         (Ok((_, a)), Ok((_, b))) => {
             let (ra, rb) = (rows_of(&a), rows_of(&b));
             if let Some(d) = same_rows(&ra, &rb) {
+                if case.foreign_fns {
+                    // known finding? re-run with the aggregates that have a non-NULL value over no rows (count) kept native
+                    if let Ok(diag) = build(case, v, true) {
+                        let again = async {
+                            let state = diag.foreign.state();
+                            let logical = state.create_logical_plan(&sql).await?;
+                            let plan = state.create_physical_plan(&logical).await?;
+                            execute_all(&plan, diag.foreign.task_ctx()).await
+                        }
+                        .await;
+                        if let Ok((_, c)) = again {
+                            if same_rows(&ra, &rows_of(&c)).is_none() {
+                                violation!("[sig=udaf-default-value-not-carried] `{sql}`: with every function foreign the rows differ ({d}); with count (the aggregates whose default_value is not NULL) kept native they agree — ForeignAggregateUDF does not carry default_value, so the decorrelated scalar subquery yields NULL instead of count's 0");
+                            }
+                        }
+                    }
+                }
                 violation!("`{sql}` (foreign context: tables{}): rows differ: {d}", if case.foreign_fns { " + functions" } else { "" });
             }
             labels.push("query:context-compared".into());
